@@ -911,7 +911,10 @@ def interpret_as_tempo_indication(value: str) -> MatchTempoIndication:
     return tempo_indication
 
 
-def format_tempo_indication(value: MatchTempoIndication) -> str:
+def format_tempo_indication(value: Union[MatchTempoIndication, List[str]]) -> str:
+    if isinstance(value, list):
+        # the value of a parsed line (see interpret_as_tempo_indication)
+        return str(value[0]) if len(value) == 1 else format_list(value)
     value.is_list = False
     return str(value)
 
